@@ -1,6 +1,7 @@
 package interp
 
 import (
+	"os"
 	"fmt"
 	"go/types"
 
@@ -85,3 +86,44 @@ func (i *interpreter) needPS(what string) *pathState {
 }
 
 var _ = sym.OpAdd
+
+func init() {
+	p := VerifrtPath + "."
+	boolT := types.Typ[types.Bool]
+	fold := func(and bool) externalFn {
+		return func(fr *frame, args []value) value {
+			var acc value = and
+			for _, c := range args[0].([]value) {
+				if and {
+					acc = andV(acc, c)
+				} else {
+					acc = notV(andV(notV(acc), notV(c)))
+				}
+			}
+			return acc
+		}
+	}
+	externals[p+"And"] = fold(true)
+	externals[p+"Or"] = fold(false)
+	externals[p+"Implies"] = func(fr *frame, args []value) value {
+		return notV(andV(args[0], notV(args[1])))
+	}
+	externals[p+"BytesEq"] = func(fr *frame, args []value) value {
+		return bytesEqual(toValues(fr.i, args[0]), toValues(fr.i, args[1]))
+	}
+	externals[p+"Thorough"] = func(fr *frame, args []value) value {
+		return os.Getenv("VERIF_TIER") == "thorough"
+	}
+	externals[p+"IteU64"] = func(fr *frame, args []value) value {
+		c, ok := args[0].(*sym.Term)
+		if !ok {
+			if args[0].(bool) {
+				return args[1]
+			}
+			return args[2]
+		}
+		cx := c.C
+		return norm(types.Typ[types.Uint64], cx.Ite(c, mustTerm(cx, args[1]), mustTerm(cx, args[2])))
+	}
+	_ = boolT
+}
